@@ -203,3 +203,50 @@ func stanzaWrappersDecodeTheirPayloadAttrs(c *cx, id string) int {
 	}
 	return n
 }
+
+// elementNamesNotFromXMLName (C19.55): the XMLName field of a payload type is
+// what the DECODER found; a value built by the program has the zero name. An
+// encoder that takes the name of an element it writes from that field writes
+// an element without a name for every such value (F139:
+// muc.Invitation.MarshalDirect). The start elements an encoder builds are
+// named by the encoder.
+//
+// Returns the number of xml.StartElement literals examined.
+func elementNamesNotFromXMLName(c *cx, id string) int {
+	n := 0
+	for _, f := range c.allFns() {
+		if f.Body == nil {
+			continue
+		}
+		ast.Inspect(f.Body, func(nd ast.Node) bool {
+			cl, ok := nd.(*ast.CompositeLit)
+			if !ok {
+				return true
+			}
+			tv, ok := f.Pkg.TypesInfo.Types[cl]
+			if !ok || tv.Type.String() != "encoding/xml.StartElement" {
+				return true
+			}
+			n++
+			for i, el := range cl.Elts {
+				var v ast.Expr
+				if kv, ok := el.(*ast.KeyValueExpr); ok {
+					if k, ok := kv.Key.(*ast.Ident); !ok || k.Name != "Name" {
+						continue
+					}
+					v = kv.Value
+				} else if i == 0 {
+					v = el
+				}
+				if v == nil {
+					continue
+				}
+				if sel, ok := ast.Unparen(v).(*ast.SelectorExpr); ok && sel.Sel.Name == "XMLName" {
+					c.r.Check(id, f, "element named by "+types.ExprString(sel), "K: an encoder names the elements it writes itself (XMLName is zero unless the value was decoded)", cl.Pos(), false, "the element gets its name from an XMLName field: a value that was not decoded is written as an element without a name")
+				}
+			}
+			return true
+		})
+	}
+	return n
+}
